@@ -306,7 +306,8 @@ def rule_d(ctx, ix):
                     and len(st.value.args) == 2:
                 common_src = unparse(st.value)
     ctx.idiom(R, f.construct + ' n-n keys', 'both columns of a key pair are cast to their common dtype before the bytes are compared',
-              accepted=common_src is not None, absent=ca_ is None and cb_ is None,
+              accepted=common_src is not None,
+              absent=(ca_ is None and cb_ is None) or ((ca_ is None) != (cb_ is None) and (ca_ or cb_).endswith('.dtype')),
               detail_absent='get_mask_with_key_joins concatenates the key columns with the dtypes they happen to be stored with and compares '
                             'the raw bytes: equal key values stored as int32 / int64, or as strings of different widths, never match, so '
                             'an n-n join between such columns selects nothing',
@@ -372,6 +373,10 @@ def rule_e(ctx, ix):
                 if boolbuf:
                     ctx.ob(R, '%s `%s`' % (construct, norm(c)), 'a Boolean buffer, not key data', True, nontrivial=False)
                     continue
+                # `right.astype(left.dtype)`: the dtype of ONE side - as lossy for the other side's values as a fixed one
+                one_sided = isinstance(src, ast.Attribute) and src.attr == 'dtype' and isinstance(c.func, ast.Attribute) and \
+                    unparse(src.value) != unparse(c.func.value)
+                fixed = fixed or one_sided
                 ctx.idiom(R, '%s `%s`' % (construct, norm(c)), 'key data is only ever cast to the common dtype of the two sides of the join',
                           accepted=common, absent=fixed,
                           detail_absent='`%s` casts key values to a dtype fixed in the source (%s): keys that differ only beyond what that '
